@@ -175,23 +175,30 @@ theorem reshape_correct (samples : List (Nat × List Int)) (modes : List Nat) (B
       (List.range B).map fun b => (modes.getD b 0, (List.range S).map fun s => (List.range T).map fun t => val s t b) :=
   reshapeWith_correct samples modes B T S order val hm hl hB hT hS hread
 
-/-- the same for what a run returns (`_run_program`: samples collected per subsystem, arranged with
-`get_mode_order`).  PARTIAL: the hypothesis `hread` — "walking along `get_mode_order` reads, from the
-collected queues, the outcome of band `b` in bin `(s, t)`" — is not derived in Lean from
-`collectSamples`/`measOrder` (it needs: within one time bin all measured subsystems are distinct, and
-`rankOf` is a permutation); it is checked exactly on every run of the correspondence (`samples` of
-`tdm.history`) and on the evaluated instances below. -/
-theorem run_samples_correct_partial (cfg : Cfg) (rolled circ : List TCmd) (S : Nat)
-    (val : Nat → Nat → Nat → Int)
-    (hm : (measuredModes rolled).Nodup) (hl : (measuredModes rolled).length = cfg.N.length)
-    (hB : 0 < cfg.N.length) (hT : 0 < cfg.timebins) (hS : 0 < S)
-    (hread : readVals (collectSamples circ) [] (measOrder rolled circ) =
-      ((List.range S).map fun s => (List.range cfg.timebins).map fun t =>
-        (List.range cfg.N.length).map fun b => val s t b).flatten.flatten) :
+/-- **the samples a run returns sit at (shot, band, bin)** — for shift- and space-unrolled circuits, every
+shift, every circuit order of the measurements in the loop body.  Let the loop body contain `n`
+measurement commands (on distinct slots, `n` = number of bands) and let the executed circuit perform
+`S·T` groups of `n` measurements, the subsystems measured within one group (one time bin) being pairwise
+distinct (they are: the register is a permutation at every bin, `register_bijection`).  Then
+`_run_program` (samples collected per subsystem, arranged by `reshape_samples` with the order of
+`get_mode_order`) returns, under the `b`-th measured mode, the array whose entry `[s][t]` is the outcome
+of the measurement of that mode's band in time bin `s·T + t` — the `rank[b]`-th measurement of that bin,
+identified by its position `(s·T+t)·n + rank[b]` in the circuit. -/
+theorem run_samples_correct (cfg : Cfg) (rolled circ : List TCmd) (S : Nat)
+    (hB : cfg.N.length = (measuredRegs rolled).length) (hn0 : 0 < (measuredRegs rolled).length)
+    (hT : 0 < cfg.timebins) (hS : 0 < S)
+    (hm : (measuredModes rolled).Nodup) (hl : (measuredModes rolled).length = (measuredRegs rolled).length)
+    (hlen : (measuredRegs circ).length = S * cfg.timebins * (measuredRegs rolled).length)
+    (hn : ∀ g, g < S * cfg.timebins → (grp (measuredRegs circ) (measuredRegs rolled).length g).Nodup) :
     runSamples cfg rolled circ none =
-      (List.range cfg.N.length).map fun b => ((measuredModes rolled).getD b 0,
-        (List.range S).map fun s => (List.range cfg.timebins).map fun t => val s t b) :=
-  reshapeWith_correct _ _ _ _ S _ val hm hl hB hT hS hread
+      (List.range (measuredRegs rolled).length).map fun b => ((measuredModes rolled).getD b 0,
+        (List.range S).map fun s => (List.range cfg.timebins).map fun t =>
+          (((s * cfg.timebins + t) * (measuredRegs rolled).length +
+            (rankOf (measuredRegs rolled)).getD b 0 : Nat) : Int)) := by
+  unfold runSamples
+  simp only [hB]
+  exact reshapeWith_correct _ _ _ _ S _ _ hm hl hn0 hT hS
+    (run_reads_in_order rolled circ S cfg.timebins hn0 hlen hn)
 
 /-- **crop/delay consistency.**  For all beamsplitter argument lists and loop delays, the crop value
 that `vacuum_padding` announces for the un-padded arguments is the crop value `get_crop_value` computes
@@ -238,11 +245,15 @@ theorem reshape_space_unrolled_instance :
 
 /-! ## non-vacuity -/
 
-/-- the hypotheses of `reshape_correct` / `run_samples_correct_partial` hold for a real unrolled circuit:
+/-- the hypotheses of `reshape_correct` / `run_samples_correct` hold for a real unrolled circuit:
 two bands measured in the order (band 1, band 0), two shots, three bins -/
 example :
     let circ := unrollProgram exCfg false exProg 2 [0, 1, 2]
-    (measuredModes exProg).Nodup ∧ (measuredModes exProg).length = exCfg.N.length ∧
+    exCfg.N.length = (measuredRegs exProg).length ∧ (measuredModes exProg).Nodup ∧
+    (measuredModes exProg).length = (measuredRegs exProg).length ∧
+    (measuredRegs circ).length = 2 * exCfg.timebins * (measuredRegs exProg).length ∧
+    (∀ g, g < 2 * exCfg.timebins → (grp (measuredRegs circ) (measuredRegs exProg).length g).Nodup) ∧
+    rankOf (measuredRegs exProg) = [1, 0] ∧
     readVals (collectSamples circ) [] (measOrder exProg circ) =
       ((List.range 2).map fun s => (List.range 3).map fun t => (List.range 2).map fun b =>
         (((s * 3 + t) * 2 + (if b = 0 then 1 else 0) : Nat) : Int)).flatten.flatten := by decide
